@@ -42,6 +42,15 @@ def corpus(ctx):
         sds.append(sd)
         limits.append('sched:enum')
         eagers.append(None)
+    # ... and with exactly one candidate finishing, for every candidate in turn: whichever candidate the real limiter
+    # leaves standing, what selection returns must be a working coding (sampled settings in the thorough tier too)
+    from adsg_core.optimization.assign_enc import encoder_registry as R
+    n_cand = len(R.PATTERN_ENCODERS) + len(R.LAZY_ENCODERS) + len(R.EAGER_ENCODERS) + len(R.EAGER_ENUM_ENCODERS)
+    for sd in degenerate_settings() + ([] if ctx.quick else rng.sample(fam, 12) + [gen_conn.random_sdesc(rng) for _ in range(12)]):
+        for k in range(n_cand):
+            sds.append(sd)
+            limits.append('sched:only:%d' % k)
+            eagers.append(None)
     return sds, limits, eagers
 
 
